@@ -15,7 +15,9 @@ RP == <<82, 95>>   FP == <<70, 95>>     \* field prefixes R_ / F_ make the prove
 RuleNames == <<n_sel, n_filter, n_sel_a, n_notable>>
 FilterNames(fam) == <<n_sel, n_1x, IF fam = 1 THEN n_ax ELSE n_usx, n_And, n_notable>>
 RuleConds == {CId(n_sel), CSel("1", <<115,101,108,42>>), CSel("all", S_them), CBin("cand", CId(n_sel), CNot(CId(n_filter))),
-              CSel("1", <<42,95,97>>), CBin("cor", CId(n_notable), CId(n_sel_a))}
+              CSel("1", <<42,95,97>>), CBin("cor", CId(n_notable), CId(n_sel_a)),
+              \* leading wildcards (would reach into the filter's renamed detections if the underscore rule failed)
+              CSel("1", <<42>>), CSel("all", <<42,108>>), CSel("1", <<42,101,42>>)}
 FilterConds == {CId(n_sel), CNot(CId(n_sel)), CSel("1", S_them), CSel("all", <<115,101,42>>), CSel("any", <<42,120>>),
                 CBin("cand", CId(n_And), CNot(CId(n_1x))), CNot(CSel("1", <<110,111,116,42>>))}
 cat1 == <<99,49>> cat2 == <<99,50>> prod1 == <<112,49>> prod2 == <<112,50>> svc1 == <<115,49>>
